@@ -31,7 +31,7 @@ SetToSeq(S) == LET RECURSIVE f(_)
                IN f(S)
 
 (* per-run observation state *)
-InitRun == [log |-> <<>>, announced |-> {}, ret |-> <<>>, cancelled |-> FALSE,
+InitRun == [log |-> <<>>, announced |-> {}, ret |-> <<>>, cancelled |-> FALSE, pk |-> 0,
             snapin |-> "-", fresh |-> <<>>, late |-> 0]
 InitSt(T) == [r \in 1..Len(Progs[T.pi].runs) |-> InitRun]
 InitG == [snap |-> <<>>, outcomes |-> {}]
@@ -168,12 +168,17 @@ CheckQuiescent(P, T, S, ln) ==
     (IF ln.gates = 0 /\ ln.timers = 0 /\ Len(ln.pending) > 0
      THEN Feat(P, {"C02.stuck", "C01.stuck"}, {"C09.stuck"}, {"C10.stuck"}, {"C11.stuck"}) ELSE {})
     \cup
-    (* with a suspended collaborator call (event callback, artifact save) a finished body is not yet a completed node *)
-    (IF P.plain /\ Len(ln.pending) > 0 /\ ln.collab_gates = 0
+    (* a node is completed when its task is: body finished, completion announced, result saved, and no collaborator
+       call of it still suspended; a node counts as started from its node_start announcement on *)
+    (IF P.plain /\ Len(ln.pending) > 0
      THEN UNION {LET s == S[ln.pending[i]]
-                     fin(m) == \E j \in 1..Len(s.log) : IsBE(s.log[j]) /\ s.log[j][2] = m /\ s.log[j][4][1] = "ok"
-                     sta(m) == \E j \in 1..Len(s.log) : IsBS(s.log[j]) /\ s.log[j][2] = m
-                 IN  IF \E n \in DOMAIN P.depth :
+                     susp(m) == "collab_nodes" \in DOMAIN ln /\ \E j \in 1..Len(ln.collab_nodes) : ln.collab_nodes[j] = m
+                     fin(m) == /\ \E j \in 1..Len(s.log) : IsBE(s.log[j]) /\ s.log[j][2] = m /\ s.log[j][4][1] = "ok"
+                               /\ \E j \in 1..Len(s.log) : IsSV(s.log[j]) /\ s.log[j][2] = m
+                               /\ ~susp(m)
+                     sta(m) == \E j \in 1..Len(s.log) : (IsBS(s.log[j]) /\ s.log[j][2] = m)
+                                                        \/ (IsEV(s.log[j]) /\ s.log[j][2] = "node_start" /\ s.log[j][3] = m)
+                 IN  IF (ln.collab_gates = 0 \/ "collab_nodes" \in DOMAIN ln) /\ ~susp("-") /\ \E n \in DOMAIN P.depth :
                             /\ P.depth[n] >= 0
                             /\ \A m \in DOMAIN P.depth : (P.depth[m] >= 0 /\ P.depth[m] < P.depth[n]) => fin(m)
                             /\ ~sta(n)
@@ -292,6 +297,13 @@ CheckSnap(P, T, s, ln) ==
     \cup (IF g.snap # <<>> /\ g.snap.classes # ln.classes THEN {"C07.classes"} ELSE {})
     \cup (IF ln.when = "after" /\ s.snapin # ln.input THEN {"C07.input"} ELSE {})
 
+(* every run that is not given a pipeline id gets its own: the id is the key under which collaborators (the
+   file-system artifact store, event managers) keep per-run data, so two runs sharing one id interfere there *)
+PkOf(ln) == IF "pk" \in DOMAIN ln THEN ln.pk ELSE 0
+CheckPid(T, S, ln) ==
+    IF PkOf(ln) > 0 /\ \E r \in DOMAIN S : r # ln.r /\ S[r].pk = PkOf(ln)
+    THEN (IF T.overlap THEN {"C08.pid"} ELSE {"C07.pid"}) ELSE {}
+
 (***************************************************************************)
 (* State update per line                                                   *)
 (***************************************************************************)
@@ -312,7 +324,7 @@ ApplyLine(S, ln) ==
                            THEN LET x == pr[Len(pr)] IN {IF IsBE(x) THEN x[4][2] ELSE x[4]}
                            ELSE {}
                 IN [AppendLog(s, <<"EV", ln.kind, ln.n, ln.err, ln.res>>) EXCEPT !.announced = @ \cup ann])
-      [] ln.e = "RunReturn" -> Upd(S, ln.r, LAMBDA s : [s EXCEPT !.ret = <<ln.kind, ln.v>>])
+      [] ln.e = "RunReturn" -> Upd(S, ln.r, LAMBDA s : [s EXCEPT !.ret = <<ln.kind, ln.v>>, !.pk = PkOf(ln)])
       [] ln.e = "Cancel"    -> Upd(S, ln.r, LAMBDA s : [s EXCEPT !.cancelled = TRUE])
       [] ln.e = "Fresh"     -> Upd(S, ln.r, LAMBDA s : [s EXCEPT !.fresh = <<ln.kind, ln.v>>])
       [] ln.e = "Snap"      -> IF ln.when = "before"
@@ -327,8 +339,10 @@ CheckLine(P, T, S, ln) ==
       [] ln.e = "Ev"        -> CheckEv(P, T, sem[ln.r], S[ln.r], ln)
       [] ln.e = "Save"      -> CheckSave(P, T, sem[ln.r], S[ln.r], ln)
       [] ln.e = "Quiescent" -> CheckQuiescent(P, T, S, ln)
-      [] ln.e = "RunReturn" -> CheckReturn(P, T, sem[ln.r], S[ln.r], ln)
+      [] ln.e = "RunReturn" -> CheckReturn(P, T, sem[ln.r], S[ln.r], ln) \cup CheckPid(T, S, ln)
       [] ln.e = "PostRun"   -> CheckPostRun(P, T, S, ln)
+      (* time.sleep on the loop thread: every task of every run stands still for ln.ms *)
+      [] ln.e = "Block"     -> IF ln.ms > 0 THEN {"C06.blocking"} ELSE {}
       [] ln.e = "Snap"      -> CheckSnap(P, T, S[ln.r], ln)
       [] OTHER -> {}
 
